@@ -17,6 +17,10 @@ func hC12Source() string {
 		"$" + b + " = comdat any\n$" + a + " = comdat any\n$c10 = comdat any\n$c9 = comdat any\n" +
 		"@" + b + " = global i32 0, comdat($" + b + ")\n@" + a + " = global %" + t2 + " zeroinitializer, comdat($" + a + ")\n" +
 		"@x = alias i32, i32* @" + b + "\n" +
+		"@cmp = global i1 icmp ne (void () addrspace(1)* @h, void () addrspace(1)* null)\n" +
+		"@sel = global void () addrspace(1)* select (i1 true, void () addrspace(1)* @h, void () addrspace(1)* @k)\n" +
+		"@pi = global i64 ptrtoint (i32* @" + b + " to i64)\n" +
+		"declare void @h() addrspace(1)\ndeclare void @k() addrspace(1)\n" +
 		"define void @f() #1 {\n\tret void, !dbg !7\n}\ndeclare void @g() #0\n" +
 		"attributes #1 = { nounwind }\nattributes #0 = { noinline }\n" +
 		"!n10 = !{!7}\n!n9 = !{!3}\n!" + a + " = !{!3, !7}\n" +
